@@ -43,6 +43,8 @@ DIRECTED = [
     # an action that lives in the scope of an or-group: stopped when the group is left, its Started may still arrive later
     "flow f\n  match E1()\n\nflow o\n  await f or A1Action(x=1)\n  match E2()\n  send Out1()\n\nflow main\n  start o\n  match E3()\n  match Never()\n",
     "flow o\n  when A1Action(x=1)\n    send Out1()\n  or when E1()\n    send Out2()\n  match E2()\n\nflow main\n  activate o\n  match E3()\n  match Never()\n",
+    # identical actions started inside scopes by two flows in one step (merged by the conflict resolution), scopes left separately
+    "flow a\n  match E1()\n  when A1Action(x=1)\n    send Out1()\n  or when E2()\n    send Out2()\n  match E3()\n\nflow b\n  match E1()\n  when A1Action(x=1)\n    send Out3()\n  or when E3()\n    send Out4()\n  match E2()\n\nflow main\n  start a\n  start b\n  match Never()\n",
     "flow c\n  match E1()\n\nflow p\n  start c\n  match E2()\n\nflow main\n  start p as $p\n  match $p.Finished()\n  send Out1()\n  start p\n  match E3()\n  send Out2()\n  match Never()\n",
 ]
 
@@ -88,8 +90,9 @@ def explore(ctx, nprog, maxhist, maxpick, seed_offset=0, counter=None, maxtick=1
         results = list(ex.map(run_tlc, prepared))
     colang2.install_scripted_random()
     sm = colang2.sm
-    clock = colang2.install_fake_clock()
     from nemoguardrails.colang.v2_x.runtime import flows as _fl
+    clock = _VClock
+    sm.datetime = clock           # fully virtual time: the clean-up age never depends on how long the check runs
     _fl.datetime = clock          # time stamps of status changes come from the same clock
     created = _log_action_creation()
     out = {"programs": len(prepared), "outside_fragment": outside, "states": 0, "transitions": 0, "compared": 0, "drift": 0,
@@ -104,6 +107,7 @@ def explore(ctx, nprog, maxhist, maxpick, seed_offset=0, counter=None, maxtick=1
         for inv in r.violated:
             out["spec_violations"].append({"invariant": inv, "program": src, "counterexample": tlc.counterexample(r.out)[:3000]})
         del created[:]
+        clock.offset = 0.0
         base = colang2.start_main(colang2.compile_program(src))
         nelements = sum(len(c.elements) for c in base.flow_configs.values())
         base_created = list(created)
@@ -174,6 +178,16 @@ def explore(ctx, nprog, maxhist, maxpick, seed_offset=0, counter=None, maxtick=1
             if len(steps) > 1:
                 out["traces"].append({"steps": steps, "origin": "colangsm:%d" % i})
     return out
+
+
+class _VClock:
+    """datetime replacement inside the statemachine and flows modules: a fixed instant plus a scripted offset."""
+    offset = 0.0
+
+    @classmethod
+    def now(cls, *a):
+        import datetime as _d
+        return _d.datetime(2030, 1, 1) + _d.timedelta(seconds=cls.offset)
 
 
 _created = []
